@@ -17,6 +17,10 @@ CLAIMED = {
          "Every partition of the input into <=3 (thorough 4) batches incl. empty ones x every arrival permutation x parameters is enumerated by TLC together with the output StreamOps requires and replayed on SortBatches, Rebatch, FilterEmpty, FilterOn, DivideOn, Distribute, Concat, PairTo, IBatchOver, CompleteFileIterator, MakeISliceWorker; all interleavings of the pool/re-sequencer/rebatch pipeline are model-checked (confluence, exactly-once, termination under fairness) and every emit schedule is forced on the real pool with gates; Pool, worker pools, multi-file reader, chained pipelines and the obiconvert/obigrep/obiannotate binaries over a (max-cpu, batch-size) grid are validated by the StreamTrace specification.",
          "Trusted: TLC, the harness source/collector relays. Bounded: <=3/4 batches of size<=2, W<=3 workers exhaustively; random streams of <=9 batches and 1-6 workers; commands on 4 file sets x 16-25 configurations. Hangs are detected by a 20 s patience.",
          "DESIGN.md 5 C03"),
+ "C18": ("TLC model checking of WriterFault.tla (writer goroutine + bufio + failing sink: all arrival histories x chunk length classes x fault offsets x failing Close) + replay of the exported cases on the 4 real writers x {plain,gzip} with a failing io.WriteCloser + TLC validation of exhaustive-offset fault traces and of the real commands writing to /dev/full",
+         "The model enumerates every arrival history, chunk size class relative to the bufio buffer, fault offset and failing Close, proves NoSilentLoss/FaultReported/NoFalseAlarm and termination, and shows that each of the four sites where the error can surface (direct write, drained write, flush at close, close) is reached; each case is forced on the real writers and the outcome (log.Fatal or not, bytes accepted) must equal the model's; small outputs are additionally faulted at every byte offset and the real binaries are run against /dev/full, both validated by WriterFaultTrace.",
+         "Trusted: TLC, the failing sink of the harness, the logrus exit hook (fatal = non-zero exit). Abstract fault offsets are mapped proportionally on real byte lengths. Closed-pipe (SIGPIPE) outputs are not exercised.",
+         "DESIGN.md 5 C18"),
 }
 
 NOT_YET = "check not built yet in this round (planned, see DESIGN.md 10); not claimed"
